@@ -396,6 +396,10 @@ func calleeOrderInsensitive(c *Ctx, f *types.Func, depth int) bool {
 			for _, l := range t.Lhs {
 				ix, isIx := ast.Unparen(l).(*ast.IndexExpr)
 				if !isIx {
+					// a local of the callee (named results included)
+					if lo, isVar := identObj(info, l).(*types.Var); isVar && !lo.IsField() && within(fi.Decl, lo.Pos()) {
+						continue
+					}
 					ok = false
 					continue
 				}
@@ -414,6 +418,13 @@ func calleeOrderInsensitive(c *Ctx, f *types.Func, depth int) bool {
 					ok = false
 				}
 			}
+		case *ast.RangeStmt:
+			// a nested iteration over a map whose own body is order-insensitive (counts, deletes, flags)
+			if _, isMap := info.TypeOf(t.X).Underlying().(*types.Map); !isMap {
+				ok = false
+			} else if v, _ := classifyMapLoop(c, fi, t, depth+1); v != "insensitive" {
+				ok = false
+			}
 		default:
 			ok = false
 		}
@@ -424,6 +435,10 @@ func calleeOrderInsensitive(c *Ctx, f *types.Func, depth int) bool {
 // callbackPure: obj is a function-typed parameter of fi; every call site of
 // fi passes a function literal that writes nothing but its own locals.
 func callbackPure(c *Ctx, fi *FuncInfo, obj types.Object) string {
+	return callbackPureDepth(c, fi, obj, 0)
+}
+
+func callbackPureDepth(c *Ctx, fi *FuncInfo, obj types.Object, depth int) string {
 	if obj == nil || fi.Decl.Type.Params == nil {
 		return "not a parameter"
 	}
@@ -452,6 +467,17 @@ func callbackPure(c *Ctx, fi *FuncInfo, obj types.Object) string {
 		}
 		fl, ok := ast.Unparen(call.Args[idx]).(*ast.FuncLit)
 		if !ok {
+			// the caller hands on a callback it was given itself: look at its callers (a helper extracted
+			// from the function that takes the callback)
+			if po := identObj(p.TypesInfo, call.Args[idx]); po != nil && depth < 2 && fd != nil {
+				if cfo, isF := p.TypesInfo.Defs[fd.Name].(*types.Func); isF {
+					if cfi := funcDeclOf(c, cfo); cfi != nil {
+						if w := callbackPureDepth(c, cfi, po, depth+1); w == "" {
+							return
+						}
+					}
+				}
+			}
 			why = "callback at " + c.Pos(call.Pos()) + " is not a literal"
 			return
 		}
